@@ -13,6 +13,7 @@ package backendpb_test
 import (
 	"context"
 	"errors"
+	"fmt"
 	"io"
 	"math/rand"
 	"net"
@@ -138,7 +139,17 @@ func TestVerifC16Uploader(t *testing.T) {
 		clock := 0
 		pendingAny := false
 		steps := 15 + rng.Intn(30)
+		bulk := vhEnvInt("VERIF_BULK", 30000)
 		refresh := func(mode string) {
+			if mode == "mid" && beh%2 == 0 {
+				// a large batch: the backend's abort arrives while the client is still sending, so the
+				// failure surfaces in Send (as io.EOF) and not in CloseAndRecv.  The filler devices are
+				// not part of the judged set; the judged devices' records travel in the same batch.
+				for i := 0; i < bulk; i++ {
+					r.Record(context.Background(), agd.DeviceID(fmt.Sprintf("bulk%06d", i)), geoip.CountryAD, geoip.ASN(1),
+						c16bBase, agd.ProtoDNS)
+				}
+			}
 			be.mu.Lock()
 			be.mode, be.last = mode, "none"
 			be.mu.Unlock()
